@@ -130,7 +130,92 @@ def run_chain(r, a):
     return fails
 
 
+def entity_case(case):
+    """the application entities as an application builds them - AE, StorageAE, ClientAE, ClientStorageAE with a configured
+    maximum length - against a raw peer on loopback TCP: what the entity announces must be its configured maximum (or
+    less), whatever the peer announces"""
+    import shutil
+    import socket
+    import tempfile
+    import threading
+    import pynetdicom2
+    from pynetdicom2 import applicationentity as aem, pdu, userdataitems as ud, sopclass as sc
+    from . import scen, s3
+    own, peer, kind = case['own'], case['peer'], case['entity']
+    tmp = tempfile.mkdtemp(prefix='vp_c10_')
+
+    def announced(raw):
+        p = (pdu.AAssociateRqPDU if raw[0] == 1 else pdu.AAssociateAcPDU).decode(raw)
+        for it in p.variable_items:
+            if isinstance(it, pdu.UserInformationItem):
+                for sub in it.user_data:
+                    if isinstance(sub, ud.MaximumLengthSubItem):
+                        return sub.maximum_length_received
+        return None
+
+    def read_pdu(sock):
+        buf = b''
+        sock.settimeout(10)
+        while True:
+            fr = s3.frames(buf)
+            if fr:
+                return fr[0][1]
+            d = sock.recv(65536)
+            if not d:
+                return None
+            buf += d
+    try:
+        if kind in ('AE', 'StorageAE'):
+            srv = aem.AE('SRV', 0, max_pdu_length=own) if kind == 'AE' else pynetdicom2.StorageAE(tmp, 'SRV', 0, max_pdu_length=own)
+            srv.add_scp(sc.verification_scp)
+            with srv:
+                c = socket.create_connection(('127.0.0.1', srv.server_address[1]), timeout=10)
+                c.sendall(scen.rq_pdu(maxlen=peer).encode())
+                raw = read_pdu(c)
+                c.sendall(pdu.AAbortPDU(0, 0).encode())
+                c.close()
+            if raw is None or raw[0] != 2:
+                return '%s did not answer the request with an A-ASSOCIATE-AC' % kind
+            got = announced(raw)
+        else:
+            lst = socket.socket(); lst.bind(('127.0.0.1', 0)); lst.listen(1)
+            cli = aem.ClientAE('CLI', max_pdu_length=own) if kind == 'ClientAE' else pynetdicom2.ClientStorageAE(tmp, 'CLI', max_pdu_length=own)
+            cli.add_scu(sc.verification_scu)
+            cli.timeout = 5
+            box = {}
+
+            def peer_side():
+                conn, _ = lst.accept()
+                box['raw'] = read_pdu(conn)
+                conn.sendall(pdu.AAssociateRjPDU(1, 1, 1).encode())
+                conn.close()
+            th = threading.Thread(target=peer_side, daemon=True)
+            th.start()
+            try:
+                with cli.request_association({'aet': 'SRV', 'address': '127.0.0.1', 'port': lst.getsockname()[1]}):
+                    pass
+            except Exception:  # pylint: disable=broad-except
+                pass
+            th.join(10)
+            lst.close()
+            if not box.get('raw') or box['raw'][0] != 1:
+                return '%s did not send an A-ASSOCIATE-RQ' % kind
+            got = announced(box['raw'])
+        if got is None:
+            return '%s announced no maximum length' % kind
+        if own and (got == 0 or got > own):
+            return ('%s configured with a maximum length of %d announces %d (peer announced %d): more than it is prepared to receive'
+                    % (kind, own, got, peer))
+        if not own and kind in ('ClientAE', 'ClientStorageAE') and got != 0:
+            return '%s configured with no limit announces %d' % (kind, got)
+        return None
+    finally:
+        shutil.rmtree(tmp, ignore_errors=True)
+
+
 def replay(case):
+    if case.get('entity'):
+        return entity_case(case)
     if case.get('chain'):
         fails = run_chain(case['own'], case['peer'])
     else:
@@ -143,7 +228,9 @@ def run(chk):
                 'roles: real AssociationAcceptor.accept and AssociationRequester._request on wire-decoded PDUs with a stub '
                 'provider, then real Association.send of messages smaller than, equal to and several times the fragment '
                 'size; every P-DATA length field compared with the peer\'s announcement; adopted limit and announcement '
-                'compared with the Lean model; whole negotiations chained through the wire forms; non-trivial = pairs '
+                'compared with the Lean model; whole negotiations chained through the wire forms; the entity classes (AE, '
+                'StorageAE, ClientAE, ClientStorageAE) built with a configured maximum and observed by a raw peer over loopback '
+                'TCP: what they announce; non-trivial = pairs '
                 'with a 0 or with own != peer' % (GRID,))
     chk.trusted += ['harness/c10.py stubs for the provider (dul.send / dul.receive)']
     rnd = common.rng('c10')
@@ -179,4 +266,18 @@ def run(chk):
             chk.broke('correspondence acceptorLimit/requesterLimit', 'own=%d peer=%d model %s impl %s' % (k[0], k[1], w, g),
                       {'own': k[0], 'peer': k[1]})
             break
+    # the entities as an application builds them, over loopback TCP with a raw peer
+    for kind in ('AE', 'StorageAE', 'ClientAE', 'ClientStorageAE'):
+        for own, peer in ((1024, 0), (16384, 65536), (70000, 128), (0, 4096)):
+            ec = {'entity': kind, 'own': own, 'peer': peer}
+            try:
+                r = entity_case(ec)
+            except Exception as e:  # pylint: disable=broad-except
+                common.raise_for(common.describe_exc(e))
+            chk.case(repr(ec), True, ec if own == 1024 else None)
+            chk.count('entity:' + kind)
+            if r and common.timing_verdict(r) and not (entity_case(ec) and entity_case(ec)):
+                continue
+            if r:
+                chk.violation('C10:entity:' + kind, r, ec)
     chk.lean(['Dicom.Props.C10'])
